@@ -147,6 +147,49 @@ def mon_c19(sc, obs):
     return None
 
 
+@monitor("c19_formula")
+def mon_c19_formula(sc, obs):
+    """formula level: the bound a connective formula / Forall / Exists stores after upward() is the clamp of the chain of
+    linear forms, and -- wherever no max/min of the aggregation ties with the previous bound -- carries exactly the
+    derivative of the UNCLAMPED chain (saturated or not)"""
+    if obs[0] == -900:
+        return ("no exception", f"raised error class {obs[1]}", None)
+    _, mode, c, b, ws, rows, lower = sc
+    b = (sx.q(b[0]), sx.q(b[1]))
+    ws = [(sx.q(w[0]), sx.q(w[1])) for w in ws]
+    ov, ot = sx.q(obs[0]), sx.q(obs[1])
+
+    def body(row, low):
+        r = [sx.bnd(x) for x in row]
+        if c == 2:
+            xs = [r[0][1], r[1][0]] if low else [r[0][0], r[1][1]]
+        else:
+            xs = [x[0] if low else x[1] for x in r]
+        v, t = pre_and_tangent(c, b, ws, [(x, F(0)) for x in xs])
+        cv = clamp(v)
+        return cv, t, cv == (0 if low else 1), v
+    if mode == 0:
+        cv, t, tie, v = body(rows[0], bool(lower))
+        what = f"{'lower' if lower else 'upper'} bound of the formula (pre-activation {v})"
+        ev, et = cv, t
+    else:
+        is_forall = mode == 1
+        if bool(lower) == is_forall:       # the bound an open-world quantifier does not compute
+            ev, et, tie, what = F(0 if lower else 1), F(0), False, "the bound an open-world quantifier leaves alone"
+        else:
+            inst = [body(r, not is_forall) for r in rows]
+            tie = any(i[2] for i in inst)
+            qpre = (1 - sum(1 - i[0] for i in inst)) if is_forall else sum(i[0] for i in inst)
+            ev, et = clamp(qpre), sum((i[1] for i in inst), F(0))
+            tie = tie or ev == (1 if is_forall else 0)
+            what = f"{'upper bound of the Forall' if is_forall else 'lower bound of the Exists'} over instance bounds {[i[0] for i in inst]} (quantifier pre-activation {qpre})"
+    if ov != ev:
+        return (f"{what} = {ev}", f"{ov}", None)
+    if not tie and ot != et:
+        return (f"directional derivative of {what} = that of the unclamped chain of linear forms = {et}", f"{ot}", None)
+    return None
+
+
 def check_C19(ctx):
     st, pr = standard_prologue(ctx)
     rng = ctx.rng("k8")
@@ -160,11 +203,24 @@ def check_C19(ctx):
             ctx.violation("c19_grad", line, 0, r[0], r[1], r[2])
         k = f"conn{me['conn']}/{me['mode']}"
         hist[k] = hist.get(k, 0) + 1
+    scs9, meta9 = gen_base.gen_k9(ctx.rng("k9"), 400 if ctx.quick else 4000)
+    m9, impl9, lines9 = ctx.correspond("K8b formula-level stored bounds & gradients (connective formulae, Forall / Exists over them) vs torch.autograd", scs9,
+                                       per_proc=100, nontrivial=lambda s, mo: True)
+    sat = 0
+    for sc, line, o, me in zip(scs9, lines9, impl9[0], meta9):
+        r = MONITORS["c19_formula"](sx.loads(line), sx.loads(o))
+        if r:
+            ctx.violation("c19_formula", line, 0, r[0], r[1], r[2])
+        k = f"formula-level/mode{me['mode']}/conn{me['conn']}/rows{me['rows']}"
+        hist[k] = hist.get(k, 0) + 1
     ctx.cov["distribution"] = hist
+    ctx.assumptions.append("torch.max/torch.min split the gradient evenly at a tie (dmax2/dmin2) - tied by exact comparison on every formula-level scenario; the property monitor is silent about the gradient at such ties")
     ctx.assumptions.append("torch detach() has zero tangent (dual-number reading of autograd) - tied by exact comparison with torch.autograd.grad on every scenario")
     return ctx.finish("proof", pr, st, rule="K8: random dyadic values in [-8,8] for bias/weights/inputs (weights incl. 0 and negative), bias chosen so the "
                       "pre-activation is unsaturated / saturated high / saturated low / arbitrary; direction = unit seed (one partial derivative) or random small integer vector; "
-                      "distinct = distinct scenario text")
+                      "distinct = distinct scenario text; K8b: And/Or/Implies formulae built through the public API with the library's default activation (dyadic bias/weights), "
+                      "alone or under a fully quantified Forall / Exists over 1-4 groundings with mixed / near-TRUE / near-FALSE facts; after Model.upward() the stored bound and its directional derivative "
+                      "w.r.t. (bias, weights) are compared exactly with the dual-number model and with an independent oracle (unclamped chain of linear forms)")
 
 
 CHECKS = {"C17": check_C17, "C19": check_C19}
